@@ -359,6 +359,7 @@ func runC13(c *Ctx) {
 	ruleAppendStorePut(c, "R13.8")      // the chain on disk is gap-free: the append layer checks and writes a round in one critical section
 	ruleSaveReplacesContent(c, "R13.9") // a key file that is rewritten holds exactly the new document
 	ruleLoadOnlyAfterCompletedDKG(c, "R13.10")
+	ruleCommitErrorReachesCaller(c, "R13.11")
 	ruleErrorsOfPersistenceChecked(c, "R13.7", "internal/dkg", "internal/core", "common/key", "internal/chain/boltdb")
 }
 
